@@ -46,8 +46,8 @@ def programs_for(ctx):
         i += 1
         if p is not None:
             progs.append(("gen:%d" % i, p))
-    # a stream inside the proved fragment (Frag.frag0): one crossing of plain factors, free factors,
-    # Repeat / MinimumTrials for several rounds and a leftover round, nothing that needs rejection
+    # a stream (mostly) inside the proved fragment (Frag.frag1): one crossing of plain factors, free factors,
+    # Repeat / MinimumTrials for several rounds and a leftover round, exclusions and constraints by rejection
     nfrag = 40 if ctx.quick else 300
     j = 0
     tries = 0
@@ -57,11 +57,13 @@ def programs_for(ctx):
                                    features={"derived": False, "weighted_p": 0.0})
         if p is None:
             continue
-        keep = [c for c in p["constraints"] if c["kind"] == "MinimumTrials"]
-        ids = {c["id"] for c in keep}
-        p["constraints"] = keep
-        for b in p["blocks"]:
-            b["constraints"] = [c for c in b.get("constraints", []) if c in ids]
+        if j % 2 == 0:
+            # every other program: nothing that needs rejection (the earlier fragment Frag.frag0)
+            keep = [c for c in p["constraints"] if c["kind"] == "MinimumTrials"]
+            ids = {c["id"] for c in keep}
+            p["constraints"] = keep
+            for b in p["blocks"]:
+                b["constraints"] = [c for c in b.get("constraints", []) if c in ids]
         j += 1
         progs.append(("frag:%d" % j, p))
     return progs
@@ -271,11 +273,11 @@ def features(rec):
 def run(ctx, res):
     progs = programs_for(ctx)
     res.rule = ("%d programs: hand-written corpus + gen_design.gen_program(max_space=%d) (all shapes: cross/multi/repeat/merge/nest, "
-                "derived within/transition/window, every constraint kind, weights) + a stream inside the proved fragment Frag.frag0 "
-                "(plain crossing, free factors, Repeat/MinimumTrials rounds and leftover); every candidate key of designs with <= %d keys "
+                "derived within/transition/window, every constraint kind, weights) + a stream inside the proved fragment Frag.frag1 "
+                "(plain crossing, free factors, exclusions, constraints by rejection, Repeat/MinimumTrials rounds and leftover); every candidate key of designs with <= %d keys "
                 "decoded by the real enumerator and by the model; non-trivial = distinct (main crossing, preamble, crossing size, m, "
                 "weighted?, instances, possible keys) tuples" % (len(progs), MAX_SPACE, MAX_KEYS))
-    res.notes.append("level: proof for designs inside Frag.frag0 (Properties/C05.v, closed under the global context); outside it the "
+    res.notes.append("level: proof for designs inside Frag.frag1 (Properties/C05.v, closed under the global context); outside it the "
                      "property is decided per design by exhaustive enumeration of the real enumerator's keys against the reference "
                      "oracle (translation validation), with the model tied to the code by layer L8")
     recs = random_corr.random_correspondence(ctx, res, [p for _, p in progs], max_keys=MAX_KEYS)
@@ -337,18 +339,33 @@ def run(ctx, res):
                           % (ex[1], ex[2], nvalid), None, i))
     res.extra["search"] = dict(stats)
     thm = collections.Counter()
+    gen_thm = collections.Counter()     # over the generated stream only ("gen:..." programs)
     thm_bad = []
     for (name, _), r in zip(progs, recs):
         t = r.get("thm")
         if t is None:
+            if name.startswith("gen:"):
+                gen_thm["not-built"] += 1
             continue
+        inside = t[0] in ("frag", "big", "refused")
+        in0 = inside and bool(t[-1] if t[0] != "frag" else t[7])
         thm[t[0]] += 1
-        if t[0] == "frag0" and not all(x is True for x in t[2:]):
+        if name.startswith("gen:"):
+            gen_thm["frag1" if inside else "outside"] += 1
+            if in0:
+                gen_thm["frag0"] += 1
+        if t[0] == "frag" and not all(x is True for x in t[2:7]):
             thm_bad.append((name, r, t))
+    ngen = sum(gen_thm[k] for k in ("frag1", "outside", "not-built"))
     res.extra["proved_fragment"] = {
-        "frag0_designs": thm.get("frag0", 0), "frag0_too_many_keys": thm.get("big", 0), "outside_fragment": thm.get("outside", 0),
-        "note": "frag0 = Frag.frag0 (Properties/C04-C06 are proved for it); for the designs inside it the executable statements of "
-                "the theorems were also evaluated on the extracted model against Sem.all_valid"}
+        "frag1_designs_evaluated": thm.get("frag", 0), "frag1_too_many_keys": thm.get("big", 0),
+        "frag1_refused_by_show_errors": thm.get("refused", 0), "outside_fragment": thm.get("outside", 0),
+        "generated_programs": ngen, "generated_in_frag1": gen_thm.get("frag1", 0), "generated_in_frag0": gen_thm.get("frag0", 0),
+        "share_of_generated_in_frag1": round(gen_thm.get("frag1", 0) / ngen, 4) if ngen else None,
+        "share_of_generated_in_frag0": round(gen_thm.get("frag0", 0) / ngen, 4) if ngen else None,
+        "note": "frag1 = Frag.frag1 (Properties/C04-C07 are proved for it; it contains the earlier Frag.frag0); shares are over the "
+                "gen_design.gen_program stream only (programs the constructors reject count as outside); for the designs inside "
+                "the fragment the executable statements of the theorems were also evaluated on the extracted model against Sem.all_valid"}
     res.extra["features_exercised"] = dict(feat)
     seen = set()
     for kind, what, key, i in found:
